@@ -59,7 +59,16 @@ func traceUpdater(t *testing.T, o opts) {
 			u      *setec.Updater[*uval]
 			builds int
 			nextID int
+			// the next rebuild installs one more version while it is building (and says which)
+			midNext bool
+			midVal  string
 		}
+		type verVal struct {
+			ver uint32
+			val []byte
+		}
+		past := []verVal{{1, []byte("v1")}}
+		curVer := uint32(1)
 		var upds []*upd
 		ver := uint32(1)
 		lastBad := false
@@ -73,10 +82,23 @@ func traceUpdater(t *testing.T, o opts) {
 			midVal := ""
 			u, err := setec.NewUpdater(context.Background(), st, "w", func(b []byte) (*uval, error) {
 				ud.builds++
+				if ud.midNext && ud.builds > 1 {
+					ud.midNext = false
+					ver++
+					val := []byte(fmt.Sprintf("v%d", ver))
+					past = append(past, verVal{ver, val})
+					sv.set("w", ver, val)
+					curVer = ver
+					st.Refresh(context.Background())
+					ud.midVal = hb(val)
+					lastBad = false
+				}
 				if midInstall && ud.builds == 1 {
 					ver++
 					val := []byte(fmt.Sprintf("v%d", ver))
+					past = append(past, verVal{ver, val})
 					sv.set("w", ver, val)
+					curVer = ver
 					st.Refresh(context.Background())
 					midVal = hb(val)
 				}
@@ -108,7 +130,23 @@ func traceUpdater(t *testing.T, o opts) {
 				if bad {
 					val = []byte(fmt.Sprintf("bad%d", ver))
 				}
-				sv.set("w", ver, val)
+				setVer := ver
+				var olds []verVal
+				for _, pv := range past {
+					if pv.ver != curVer {
+						olds = append(olds, pv)
+					}
+				}
+				if len(olds) > 0 && r.Intn(5) == 0 {
+					// the operator activates an earlier version again: an install like any other
+					ver--
+					old := olds[r.Intn(len(olds))]
+					setVer, val, bad = old.ver, old.val, bytes.HasPrefix(old.val, []byte("bad"))
+				} else {
+					past = append(past, verVal{ver, val})
+				}
+				sv.set("w", setVer, val)
+				curVer = setVer
 				lastBad = bad
 				cacheFails := r.Intn(4) == 0
 				rc.mu.Lock()
@@ -131,14 +169,16 @@ func traceUpdater(t *testing.T, o opts) {
 				rc.mu.Unlock()
 				// the scripted service never fails here: an error can only be the cache write's, and
 				// the version is installed (and announced) all the same
-				emit("install\tver=%d\tval=%s\tbad=%s\tmid=%s\tres=%s\tcachefail=%s", ver, hb(val), b01(bad), b01(mid), b01(err == nil || cacheFails), b01(cacheFails))
+				emit("install\tver=%d\tval=%s\tbad=%s\tmid=%s\tres=%s\tcachefail=%s", setVer, hb(val), b01(bad), b01(mid), b01(err == nil || cacheFails), b01(cacheFails))
 			case x < 9: // Get
 				i := r.Intn(len(upds))
 				ud := upds[i]
 				if ud.u == nil {
 					continue
 				}
+				ud.midNext, ud.midVal = r.Intn(6) == 0, ""
 				v := ud.u.Get()
+				ud.midNext = false
 				var cl []string
 				book.mu.Lock()
 				for k, c := range book.closes {
@@ -148,8 +188,12 @@ func traceUpdater(t *testing.T, o opts) {
 				}
 				book.mu.Unlock()
 				sort.Strings(cl)
-				emit("get\tu=%d\tsrc=%s\tid=%d\terr=%s\tbuilds=%d\tclosed_self=%s\tcloses=%s", i, hb(v.src), v.id, b01(ud.u.Err() != nil), ud.builds,
-					b01(book.closes[fmt.Sprintf("%d/%d", i, v.id)] > 0), strings.Join(cl, ","))
+				mi := ""
+				if ud.midVal != "" {
+					mi = "\tmidinstall=" + ud.midVal
+				}
+				emit("get\tu=%d\tsrc=%s\tid=%d\terr=%s\tbuilds=%d\tclosed_self=%s\tcloses=%s%s", i, hb(v.src), v.id, b01(ud.u.Err() != nil), ud.builds,
+					b01(book.closes[fmt.Sprintf("%d/%d", i, v.id)] > 0), strings.Join(cl, ","), mi)
 			default:
 				if len(upds) < 4 {
 					newUpd()
